@@ -79,6 +79,7 @@ def cases(tier, seed):
             out.append(('lazy', fam, x))
     out.append(('refuse',))
     out += [('dense-inverse', n) for n in _dense_inverse_ops()]
+    out += [('configured-tolerance', order) for order in ('solver-outside', 'solver-inside', 'single')]
     return out
 
 
@@ -105,6 +106,8 @@ def run_case(key, twin=False):
         return _refuse()
     if key[0] == 'dense-inverse':
         return _dense_inverse(key[1])
+    if key[0] == 'configured-tolerance':
+        return _configured(key[1])
     mode, fam, x0 = key
     e, force = _expr(x0)
     bld = Builder(fam)
@@ -224,6 +227,43 @@ def _dense_inverse(name):
     return ok(obligations=0, concrete_checks=1, nontrivial=True, sample=dict(case=f'dense inverse: {name}', max_error=err))
 
 
+def _configured(order):
+    """Concrete: a lazy inverse created under nested Config blocks solves to the CONFIGURED tolerance (tighter than the default)."""
+    import lineax as lx
+    from furax import Config
+    from furax._base.core import InverseOperator
+    from furax._base.dense import DenseBlockDiagonalOperator as Dense
+    n = 24
+    rng = np.random.default_rng(3)
+    q, _ = np.linalg.qr(rng.normal(size=(n, n)))
+    M = (q * np.geomspace(1.0, 1e3, n)) @ q.T
+    M = (M + M.T) / 2
+    A = Dense(jnp.asarray(M), S(n), 'ij,j->i')
+    y = jnp.asarray(rng.normal(size=n))
+    tight = lx.CG(rtol=1e-12, atol=1e-12, max_steps=2000)
+    quiet = lambda solution: None  # noqa: E731
+    with real_solver():
+        if order == 'solver-outside':
+            with Config(solver=tight):
+                with Config(solver_callback=quiet):
+                    inv = InverseOperator(A)
+        elif order == 'solver-inside':
+            with Config(solver_callback=quiet):
+                with Config(solver=tight):
+                    inv = InverseOperator(A)
+        else:
+            with Config(solver=tight, solver_callback=quiet):
+                inv = InverseOperator(A)
+        z = inv.mv(y)            # applied OUTSIDE the blocks: the captured configuration counts
+    res = float(np.linalg.norm(M @ np.asarray(z) - np.asarray(y)) / np.linalg.norm(np.asarray(y)))
+    if getattr(inv, 'config', None) is not None and inv.config.solver is not tight:
+        return violation(f'[{order}] the lazy inverse did not capture the configured solver (captured {inv.config.solver})', signature=f'c06-configured:{order}', kind='configured')
+    if not np.isfinite(res) or res > 1e-9:
+        return violation(f'[{order}] A.I(y) leaves a relative residual {res:.2e} although the configured tolerance is 1e-12 (the default is 1e-6)',
+                         signature=f'c06-configured:{order}', kind='configured')
+    return ok(obligations=0, concrete_checks=1, nontrivial=True, sample=dict(case=f'configured tolerance, {order}', relative_residual=res))
+
+
 def _refuse():
     from furax._base.core import InverseOperator
     from furax._base.dense import DenseBlockDiagonalOperator
@@ -252,7 +292,7 @@ def replay(key, model, info):
         key, twin = key[1], True
     key = _tuplify(key)
     kind = info.get('kind') or ''
-    if key[0] in ('refuse', 'dense-inverse') or kind in ('raises', 'struct', 'refuse'):
+    if key[0] in ('refuse', 'dense-inverse', 'configured-tolerance') or kind in ('raises', 'struct', 'refuse'):
         r = run_case(key)
         return r['status'] == 'violation', r.get('what', 'ok')
     mode, fam, x0 = key
